@@ -6,7 +6,7 @@ REPO = os.environ.get('VERIF_REPO', '/repo')
 CLANG = 'clang++-14'
 BASE_FLAGS = ['-std=gnu++17', '-fsyntax-only', '-w', '-DHAVE_CONFIG_H',
               '-I' + REPO + '/include', '-I' + REPO, '-I' + REPO + '/runtime',
-              '-I' + REPO + '/utests']
+              '-I' + REPO + '/utests', '-I' + REPO + '/compiler']
 
 
 class ExtractError(Exception):
